@@ -18,7 +18,8 @@ HERE = os.path.dirname(os.path.abspath(__file__))
 class Adapter:
     case_timeout = 120
 
-    def __init__(self, langs=None, hashseeds=(0, 1, 2), toks=None, **kw):
+    def __init__(self, langs=None, hashseeds=(0, 1, 2), toks=None, min_edges=0, **kw):
+        self.min_edges = min_edges
         self.langs = langs or {}
         self.hashseeds = hashseeds
         self.toks = toks or {}
@@ -34,6 +35,8 @@ class Adapter:
         lang = case['lang']
         L = self.langs[lang] if isinstance(lang, str) else lang
         res = {'steps': 0, 'div': [], 'features': []}
+        if len(case['exp']['hi']) < self.min_edges:
+            return res          # too small to tell anything about ordering: skipped (not counted as non-trivial)
 
         def div(comp, detail):
             if len(res['div']) < 3:
